@@ -185,6 +185,9 @@ PROPS = {
     ),
     "C06": dict(
         props="Props/C06.v", tables=["core", "afm"],
+        src=["py_AFMWriter_transform", "py_AFMWriter_serialize_relationships", "py_AFMWriter_serialize_attributes",
+             "py_AFMWriter_serialize_constraints", "py_AFMWriter_read_relation", "py_AFMWriter_read_attribute",
+             "py_AFMWriter_value_text", "py_AFMWriter_recursive_constraint_read"],
         suites=[suite_afm.run],
         rule=("suites W-afm (bytes of AFMWriter vs [afm_write]), P-afm (the real afmparser parse tree of the written file, "
               "converted to the model's syntax-tree type, vs [afm_cst]: validates the parser premise of the theorems) and "
